@@ -46,6 +46,7 @@ WIDE = {'cols': [3, 7, 299], 'labels_dtypes': ['uint8', 'int8', 'int16', 'list']
 MAGNITUDES = {'big': (np.float64, lambda v: v + 1000.0), 'f32big': (np.float32, lambda v: float(np.float32(v + 200.0))),
               'tiny': (np.float64, lambda v: v * 1e-17),      # costs far outside the usual range of negative log-probabilities
               'e100': (np.float64, lambda v: v * 1e100),      # finite, but beyond the range of single precision
+              'neg': (np.float64, lambda v: v - 50.0),        # every cost negative (scores / negated probabilities used as costs): the minimum is unchanged
               'int25': (np.float64, lambda v: float(round(v * 10) + 2 ** 25))}      # integer-valued costs that single precision cannot tell apart
 UNIT = {'tiny': 1e-17, 'e100': 1e100}
 
@@ -92,7 +93,7 @@ def shards(tier):
                 for p in itertools.product(range(R), repeat=2):
                     out.append({'C': C, 'T': t, 'prefix': list(p)})
     # the same search on matrices of other dtypes (float32, int64): unusual but legal inputs
-    for dt in ('f32', 'i64', 'big', 'f32big', 'tiny', 'e100', 'int25'):
+    for dt in ('f32', 'i64', 'big', 'f32big', 'tiny', 'e100', 'int25', 'neg'):
         for t in range(1, b['Tdtype'] + 1):
             out.append({'C': 3, 'T': t, 'prefix': [], 'dtype': dt})
     # a 300-symbol output layer (blank = 299) with the labels held in small-integer numpy arrays
